@@ -11,7 +11,9 @@ CornerCases == {[corner |-> c, lz |-> k] : c \in Corners, k \in {1, 2}}
                  \cup {[corner |-> c, lz |-> 0] : c \in {"", "pq_big", "pq_mid", "pq_small"}}
 
 Hows(l) == IF l.field = "kind" THEN (IF l.step = "dhGen" THEN {"retry", "fail"} ELSE {"fail"})
-           ELSE IF l.field \in {"fingerprints", "answer_hash"} THEN {"flip", "fresh", "zero"}
+           \* "no offered fingerprint matches": one foreign fingerprint, several foreign ones, or none at all
+           ELSE IF l.field = "fingerprints" THEN {"flip", "fresh", "zero", "several", "none"}
+           ELSE IF l.field = "answer_hash" THEN {"flip", "fresh", "zero"}
            ELSE {"flip", "fresh", "other", "zero"}
 LieCases == UNION {{[step |-> l.step, field |-> l.field, how |-> h] : h \in Hows(l)} : l \in {x \in H!Lies : x.step # "none"}}
 
